@@ -199,8 +199,18 @@ func (cfg *Config) PutCredential(serverAddress string, cred auth.Credential) err
 	if err != nil {
 		return fmt.Errorf("failed to marshal auth field: %w", err)
 	}
+	oldAuthCfgBytes, existed := cfg.authsCache[serverAddress]
 	cfg.authsCache[serverAddress] = authCfgBytes
-	return cfg.saveFile()
+	if err := cfg.saveFile(); err != nil {
+		// keep the cache consistent with the file: undo the update
+		if existed {
+			cfg.authsCache[serverAddress] = oldAuthCfgBytes
+		} else {
+			delete(cfg.authsCache, serverAddress)
+		}
+		return err
+	}
+	return nil
 }
 
 // DeleteAuthConfig deletes the corresponding credential for serverAddress.
@@ -208,12 +218,18 @@ func (cfg *Config) DeleteCredential(serverAddress string) error {
 	cfg.rwLock.Lock()
 	defer cfg.rwLock.Unlock()
 
-	if _, ok := cfg.authsCache[serverAddress]; !ok {
+	oldAuthCfgBytes, ok := cfg.authsCache[serverAddress]
+	if !ok {
 		// no ops
 		return nil
 	}
 	delete(cfg.authsCache, serverAddress)
-	return cfg.saveFile()
+	if err := cfg.saveFile(); err != nil {
+		// keep the cache consistent with the file: undo the removal
+		cfg.authsCache[serverAddress] = oldAuthCfgBytes
+		return err
+	}
+	return nil
 }
 
 // GetCredentialHelper returns the credential helpers for serverAddress.
@@ -239,8 +255,13 @@ func (cfg *Config) SetCredentialsStore(credsStore string) error {
 	cfg.rwLock.Lock()
 	defer cfg.rwLock.Unlock()
 
+	oldCredsStore := cfg.credentialsStore
 	cfg.credentialsStore = credsStore
-	return cfg.saveFile()
+	if err := cfg.saveFile(); err != nil {
+		cfg.credentialsStore = oldCredsStore
+		return err
+	}
+	return nil
 }
 
 // IsAuthConfigured returns whether there is authentication configured in this
